@@ -232,6 +232,27 @@ func orderScope(tier string, rep *evidence.Reporter, cov *evidence.Coverage) {
 			}
 		}
 	}
+	// broadcast batches on a bound stream
+	for try := 0; try < 3; try++ {
+		n, v, ok := broadcastBatches()
+		if !ok {
+			if try == 2 {
+				inconclusive++
+			}
+			continue
+		}
+		cases++
+		cov.Transitions += int64(n)
+		if v != nil {
+			if _, v2, ok2 := broadcastBatches(); ok2 && v2 != nil && v2.Key == v.Key {
+				v.Scenario = "broadcast-batches"
+				rep.Report(v)
+			} else {
+				inconclusive++
+			}
+		}
+		break
+	}
 	cov.States += int64(cases)
 	cov.Transitions += int64(cases)
 	cov.Evaluations += int64(cases)
@@ -242,4 +263,83 @@ func orderScope(tier string, rep *evidence.Reporter, cov *evidence.Coverage) {
 		cov.CapsHit = append(cov.CapsHit, fmt.Sprintf("sync-vs-broadcast: %d cases inconclusive (the RunServer goroutine did not record the change in time, or a violation did not reproduce)", inconclusive))
 	}
 	fmt.Printf("C16 sync-vs-broadcast cases=%d inconclusive=%d\n", cases, inconclusive)
+}
+
+// broadcastBatches: a follower stream that is bound and then receives several broadcast
+// batches (1, 2 and 3 regions pushed at once; how RunServer groups them is its business): in
+// every message the parallel arrays must describe the same regions - the leader and the flow
+// statistics at position i belong to region i.
+func broadcastBatches() (int, *evidence.Violation, bool) {
+	ctx, cancel := context.WithCancel(context.Background())
+	defer cancel()
+	base := newMock(ctx, "leader")
+	defer base.close()
+	ls := syncer.NewRegionSyncer(base)
+	notifier := make(chan *core.RegionInfo, 16)
+	quit := make(chan struct{})
+	done := make(chan struct{})
+	go func() { ls.RunServer(notifier, quit); close(done) }()
+	defer func() { close(quit); <-done }()
+	st := &ordStream{notify: make(chan struct{}, 64), point: func(string) {}}
+	st.reqs = []*pdpb.SyncRegionRequest{{Header: &pdpb.RequestHeader{ClusterId: 7}, Member: &pdpb.Member{Name: "f1", ClientUrls: []string{"http://f1"}}, StartIndex: ls.VerifHistory().GetNextIndex()}}
+	if err := ls.Sync(st); err != nil {
+		return 0, &evidence.Violation{Key: "sync-error", Message: err.Error()}, true
+	}
+	type exp struct {
+		leader  uint64
+		written uint64
+	}
+	want := map[uint64]exp{}
+	sent := 0
+	id := uint64(0)
+	for round, k := range []int{1, 2, 3, 1} {
+		for j := 0; j < k; j++ {
+			id++
+			peers := []*metapb.Peer{{Id: id*10 + 1, StoreId: 1}, {Id: id*10 + 2, StoreId: 2}, {Id: id*10 + 3, StoreId: 3}}
+			meta := &metapb.Region{Id: id, StartKey: []byte(fmt.Sprintf("%04d", id)), EndKey: []byte(fmt.Sprintf("%04d", id+1)), RegionEpoch: &metapb.RegionEpoch{Version: 1, ConfVer: 1}, Peers: peers}
+			// regions reach the notifier from region heartbeats: they always name a leader
+			leader := peers[(round+j)%3]
+			r := core.NewRegionInfo(meta, leader, core.SetWrittenBytes(1000+id))
+			want[id] = exp{leader: leader.GetId(), written: 1000 + id}
+			notifier <- r
+			sent++
+		}
+		// wait until everything pushed so far has been broadcast
+		deadline := time.Now().Add(3 * time.Second)
+		for {
+			st.mu.Lock()
+			n := 0
+			for _, m := range st.msgs {
+				n += len(m.Regions)
+			}
+			st.mu.Unlock()
+			if n >= sent {
+				break
+			}
+			if time.Now().After(deadline) {
+				return sent, nil, false
+			}
+			time.Sleep(time.Millisecond)
+		}
+	}
+	st.mu.Lock()
+	defer st.mu.Unlock()
+	for mi, m := range st.msgs {
+		if len(m.Regions) == 0 {
+			continue // keep-alive
+		}
+		if len(m.RegionLeaders) != len(m.Regions) || len(m.RegionStats) != len(m.Regions) {
+			return sent, &evidence.Violation{Key: "parallel-arrays-length", Message: fmt.Sprintf("broadcast message %d carries %d regions, %d leaders, %d stats", mi, len(m.Regions), len(m.RegionLeaders), len(m.RegionStats))}, true
+		}
+		for i, r := range m.Regions {
+			e := want[r.GetId()]
+			if m.RegionLeaders[i].GetId() != e.leader {
+				return sent, &evidence.Violation{Key: "broadcast-leader-misaligned", Message: fmt.Sprintf("broadcast message %d, position %d: region %d is sent with leader peer %d, the leader holds %d", mi, i, r.GetId(), m.RegionLeaders[i].GetId(), e.leader)}, true
+			}
+			if m.RegionStats[i].GetBytesWritten() != e.written {
+				return sent, &evidence.Violation{Key: "broadcast-stats-misaligned", Message: fmt.Sprintf("broadcast message %d, position %d: region %d is sent with bytes-written %d, the leader holds %d", mi, i, r.GetId(), m.RegionStats[i].GetBytesWritten(), e.written)}, true
+			}
+		}
+	}
+	return sent, nil, true
 }
